@@ -29,7 +29,9 @@ Record hfield := mkhf {
 (* one DataclassWrapper (single destination) *)
 Record hwrap := mkhw {
   hw_qual : string;              (* dataclass.__qualname__ *)
-  hw_path : list string;         (* destination words *)
+  hw_path : list string;         (* destination words (of the first destination) *)
+  hw_more : list string;         (* further destinations, dotted, in registration order: non-empty only for a wrapper that
+                                    ConflictResolution.ALWAYS_MERGE merged (the merge itself is C11's subject) *)
   hw_doc : string;               (* the class's __doc__ (the one dataclasses generates when none is written: the signature) *)
   hw_fields : list hfield
 }.
@@ -119,7 +121,7 @@ Section WithFacts.
 
   (* DataclassWrapper.title / .description.  The classes of the modelled domain have no inspectable source (no member
      docstrings or comments, no field docstrings) and one-line docstrings (their description part is the docstring). *)
-  Definition title (w : hwrap) : string := mk_title (hw_qual w) [join_dot (hw_path w)].
+  Definition title (w : hwrap) : string := mk_title (hw_qual w) (join_dot (hw_path w) :: hw_more w).
   Definition description (w : hwrap) : string :=
     describe (Nat.ltb 1 (List.length (hw_path w))) "" "" "" (hw_doc w) (hw_doc w) "" false false.
 
@@ -180,7 +182,7 @@ Section WithFacts.
     match F with
     | [] => []
     | w :: r => let (fs', rest) := refill_fields (hw_fields w) pool in
-                mkhw (hw_qual w) (hw_path w) (hw_doc w) fs' :: refill r rest
+                mkhw (hw_qual w) (hw_path w) (hw_more w) (hw_doc w) fs' :: refill r rest
     end.
 
   Variable resolve : list fw -> res (list fw).                 (* Gen: resolve_gen (ordered_opts cfg) mode *)
